@@ -209,9 +209,11 @@ def run_session(scn, sched, keep_sim=True, max_decisions=None, extra_setup=None)
 
     if prelude:
         pab = prelude.get('abort') or {}
-        if pab.get('kind') == 'leave':
+        if pab.get('kind') in ('leave', 'partial'):
             sim.interrupt_on_hang = 'server'
         for seat in rb.SEATS:
+            if pab.get('kind') == 'partial' and seat not in pab['seats']:
+                continue
             ov = va = None
             if pab.get('seat') == seat and pab.get('kind') == 'offend':
                 ov = {(pab['board'], pab['phase'], pab['index']): pab['raw']}
